@@ -21,7 +21,7 @@ import (
 )
 
 func init() {
-	pbt.Describe("store: logs (seeded record contents of 0-39 bytes) appended one record at a time through StoredHashes into a dense slice, every position checked against the independent layout enumerator and RFC 6962 MTH over leaf data, tree hashes for sampled sizes m<=n; coords: (level<=40, offset) pairs with level+bits(offset)<=60 and raw indexes up to 2^61 against a closed form that is itself validated against the enumerator; tree/record/hash text: generated values and texts (valid, invalid, mutated) through Format/Parse, String/ParseHash and JSON. Non-trivial: store = n>=3; coords = level>=1; texts = a well-formed value or one mutation away. Distinct by JSON rendering. The record case formats up to three further records, a tree head and a parse while the first message is held, then compares every held message with what it read when returned; same for FormatTree.",
+	pbt.Describe("store: logs (seeded record contents of 0-39 bytes) appended one record at a time through StoredHashes into a dense slice, every position checked against the independent layout enumerator and RFC 6962 MTH over leaf data, tree hashes for sampled sizes m<=n; coords: (level<=40, offset) pairs with level+bits(offset)<=60 and raw indexes up to 2^61 against a closed form that is itself validated against the enumerator; tree/record/hash text: generated values and texts (valid, invalid, mutated) through Format/Parse, String/ParseHash and JSON. Non-trivial: store = n>=3; coords = level>=1; texts = a well-formed value or one mutation away. Distinct by JSON rendering. The record case formats up to three further records, a tree head and a parse while the first message is held, then compares every held message with what it read when returned; same for FormatTree. Tree hashes are also computed through a reader that answers requests for consecutive positions with a view into one in-memory store shared by all the tree hashes of a case: same hashes, store unchanged.",
 		"merkleref (RFC 6962 over leaf data) and its layout enumerator ('after leaf i, every subtree it completes, bottom-up') are correct",
 		"record texts that start with a newline are accepted by FormatRecord although the doc comment forbids blank lines; acceptance of that shape is not asserted, only the round trip",
 		"tree sizes stay below 2^62 (stored-hash indexes are int64)")
@@ -154,6 +154,9 @@ func checkStore(c storeCase) pbt.Result {
 		r.Fail = pbt.Failf("count0", "StoredHashCount(0)=%d", tlog.StoredHashCount(0))
 		return r
 	}
+	// a second store with the same content, read the way an in-memory store is read (views for consecutive
+	// positions), shared by all the tree hashes of the case: it must come out as it went in
+	view := append([]tlog.Hash(nil), b.hashes[:tlog.StoredHashCount(c.N)]...)
 	for _, m := range c.Ms {
 		if m < 0 || m > c.N {
 			continue
@@ -164,6 +167,17 @@ func checkStore(c storeCase) pbt.Result {
 		if err != nil || merkleref.Hash(th) != tree.MTH(0, m) {
 			r.Fail = pbt.Failf("treehash", "TreeHash(%d) of the %d-record log = %v (%v), RFC 6962 MTH = %x", m, c.N, th, err, tree.MTH(0, m))
 			return r
+		}
+		th, err = tlog.TreeHash(m, tlogutil.ViewReader(view))
+		if err != nil || merkleref.Hash(th) != tree.MTH(0, m) {
+			r.Fail = pbt.Failf("treehash-view", "TreeHash(%d) of the %d-record log, read through views of an in-memory store after the earlier tree hashes of this case, = %v (%v), RFC 6962 MTH = %x", m, c.N, th, err, tree.MTH(0, m))
+			return r
+		}
+		for i := range view {
+			if view[i] != b.hashes[i] {
+				r.Fail = pbt.Failf("store-modified", "after TreeHash(%d) the stored hash at position %d of the in-memory store it read from is no longer the hash that was stored there", m, i)
+				return r
+			}
 		}
 		// reference store and code-built store agree on that prefix
 		refStore := tlogutil.Store(c.Seed, m)
